@@ -247,8 +247,12 @@ def rows_case(draw, tier="quick"):
     n = draw(st.integers(1, 5))
     k = draw(st.integers(1, 4))
     uniform = draw(st.booleans())
-    kinds = [draw(st.sampled_from(["int", "float", "str", "bool", "date"]))] * k if uniform else \
-        [draw(st.sampled_from(["int", "float", "str", "bool", "date"])) for _ in range(k)]
+    kinds = [draw(st.sampled_from(["int", "float", "str", "bool", "date", "datetime"]))] * k if uniform else \
+        [draw(st.sampled_from(["int", "float", "str", "bool", "date", "datetime"])) for _ in range(k)]
+    if k >= 2 and draw(st.integers(0, 3)) == 0:
+        # columns of two neighbouring rungs only (days next to datetimes, bools next to ints ...): the row is no vector of the lower rung
+        lo, hi = draw(st.sampled_from([("date", "datetime"), ("bool", "int"), ("int", "float"), ("float", "complex")]))
+        kinds = [lo] + [draw(st.sampled_from([lo, hi])) for _ in range(k - 2)] + [hi]
     cols = [draw(V.column(kind=kd, min_size=n, max_size=n))[1] for kd in kinds]
     if n >= 2 and draw(st.integers(0, 2)) == 0:
         # the first row is complete, a later one is not
